@@ -7,13 +7,12 @@ corpus/engine-cyclic; the same replays are run on the real engine on every `tool
 the implementation answers line by line what the as-is model answers), and with the corresponding
 findings switched to "repaired" the model returns the from-scratch values.
 
-`{}` (default `Toggles`) is the code as it is NOW: findings F2, F16 and F33 were fixed in /repo
-(commits 531aeb1, 3fbfd09, 4685b5a; F33 = `check_cyclic_internal` without a visited set, reachable
-only through interleaved repair tasks, which this sequential model does not have — except through
-the pre-3fbfd09 path of the F16 hang witness).  `before` is the code before those three fixes; the `…_asis_fails_F2/F16…`
-witnesses are HISTORICAL (they are about `before`), each paired with a `…_fixed_…` theorem stating
-that the current configuration returns the from-scratch answer on the same replay.  F3, F30, F31
-still fail as-is.
+`{}` (default `Toggles`) is the code as it is NOW.  Fixed in /repo: F2 (531aeb1), F16 (3fbfd09), F33
+(4685b5a), F14 (b832249), F1 (2abe9f6); the hang of F30 disappeared with the F1 fix.  Every
+HISTORICAL witness names its configuration explicitly (`beforeF2`, `beforeF16`, `beforeF16F33`,
+`beforeF1`: the current code with exactly that fix switched off) and is paired with a `…_fixed_…`
+theorem stating that `{}` returns the from-scratch answer on the same replay.  F3, F31 and F32 still
+fail with `{}`; F32 is now triggered by the F1 fix itself (`cycle_incremental_F32_trigger`).
 -/
 import QbiceVerif.Model.Engine
 namespace Qbice.Engine.C06
@@ -47,8 +46,16 @@ def threeEpochs (t : Toggles) (p : Program) (ws₁ : List Write) (r₁ : List Ke
     let _ ← session p ws₃
     round t p r₃) {})
 
-/-- the code before the fixes of F2, F16 and F33 -/
-def before : Toggles := { f2 := false, f16 := false, f33 := false }
+/-- the code as it is now with exactly the fix of F2 (531aeb1) switched off -/
+def beforeF2 : Toggles := { f2 := false }
+/-- … with exactly the fix of F16 (3fbfd09) switched off -/
+def beforeF16 : Toggles := { f16 := false }
+/-- … with the fixes of F16 and of F33 (4685b5a: visited set) switched off: the hang of F16 needs the
+    walk of `check_cyclic_internal` that has no visited set -/
+def beforeF16F33 : Toggles := { f16 := false, f33 := false }
+/-- … with exactly the first part of the fix of F1 (2abe9f6: clean edges above unsettled firewalls are
+    not trusted) switched off -/
+def beforeF1 : Toggles := { f1p := false }
 
 def input : NodeDef := { kind := .input, dflt := 0, prog := .ret 0 }
 
@@ -62,7 +69,7 @@ def pF2 : Program :=
 /-- F2 (historical): the code before 531aeb1 panics (`unwrap` on the missing observation of `B`'s
     cyclic read). -/
 theorem cycle_incremental_asis_fails_F2 :
-    twoEpochs before pF2 [.set 0 1] [1] [.set 0 3] [2] = .panic := by decide +kernel
+    twoEpochs beforeF2 pF2 [.set 0 1] [1] [.set 0 3] [2] = .panic := by decide +kernel
 
 theorem cycle_incremental_fixed_F2 :
     twoEpochs {} pF2 [.set 0 1] [1] [.set 0 3] [2] = .vals [10] := by decide +kernel
@@ -91,7 +98,7 @@ def pF16 : Program :=
 /-- F16 (value, historical): before 3fbfd09 `B` is cleaned with its old value `0` although it has
     just been marked as a member of the cycle; from scratch both members have their default `-1`. -/
 theorem cycle_incremental_asis_fails_F16_value :
-    twoEpochs before pF16 [.set 0 0] [2] [.set 0 1] [2] = .vals [0] := by decide +kernel
+    twoEpochs beforeF16 pF16 [.set 0 0] [2] [.set 0 1] [2] = .vals [0] := by decide +kernel
 
 theorem cycle_incremental_fixed_F16_value :
     twoEpochs {} pF16 [.set 0 0] [2] [.set 0 1] [2] = .vals [-1] := by decide +kernel
@@ -112,7 +119,7 @@ def pF16h : Program :=
 /-- F16 (hang, historical): before 3fbfd09 the request never completes (the model's `deadlock`
     outcome; the real engine was stopped by the harness watchdog). -/
 theorem cycle_incremental_asis_fails_F16_hang :
-    twoEpochs before pF16h [.set 0 0] [7] [.set 0 3] [7] = .hang := by decide +kernel
+    twoEpochs beforeF16F33 pF16h [.set 0 0] [7] [.set 0 3] [7] = .hang := by decide +kernel
 
 /-- now the request completes with the from-scratch value (the default of the projection `N6`) -/
 theorem cycle_incremental_fixed_F16_hang :
@@ -125,8 +132,13 @@ def pF30 : Program :=
     { kind := .firewall, dflt := -2, prog := .ask 0 fun x => .ask 2 fun n => .ret (x + n) },
     { kind := .normal, dflt := -1, prog := .ask 1 .ret } ]
 
+/-- F30 on this replay (HISTORICAL): before 2abe9f6 the stale firewall set made the third request hang. -/
 theorem cycle_incremental_asis_fails_F30 :
-    threeEpochs {} pF30 [.set 0 2] [2] [.set 0 1] [1] [] [1] = .hang := by decide +kernel
+    threeEpochs beforeF1 pF30 [.set 0 2] [2] [.set 0 1] [1] [] [1] = .hang := by decide +kernel
+
+/-- now: the members `F`, `N` of the cycle have their defaults; the request completes with `F`'s -/
+theorem cycle_incremental_fixed_F30 :
+    threeEpochs {} pF30 [.set 0 2] [2] [.set 0 1] [1] [] [1] = .vals [-2] := by decide +kernel
 
 /-- corpus/engine-cyclic/F31.txt: `N2 = if X = 2 then N3 else 4`, `N3 = if N1 = 1 then 0 else N2`.
     Epoch 2 creates the cycle while `N3` is being repaired; `N3`'s re-execution is aborted after its
@@ -150,5 +162,28 @@ theorem cycle_incremental_F31_needs_its_own_repair :
 theorem cycle_incremental_repaired_F31 :
     threeEpochs { f3 := true, f31 := true } pF31 [.set 0 3] [3] [.set 0 2] [3] [.set 0 3] [3]
       = .vals [4] := by decide +kernel
+
+/-- corpus/engine-cyclic/F32-after-f1-fix.txt: firewall `F = N`, `N = F`, `A = F`.  `A` is requested
+    (cycle `F ↔ N`: both defaulted, `A = −2`), then an EMPTY session, then `N` is requested: from
+    scratch `N` is a member and has its default `−1`. -/
+def pF32b : Program :=
+  [ input,
+    { kind := .firewall, dflt := -2, prog := .ask 2 .ret },
+    { kind := .normal, dflt := -1, prog := .ask 1 .ret },
+    { kind := .normal, dflt := -1, prog := .ask 1 .ret } ]
+
+/-- F32 as the code is now: `N`'s clean edge to the firewall `F` is not trusted (2abe9f6), `F` is
+    repaired through `N`'s own computing lock, the cycle is detected, `N` is re-run alone and reads
+    `F`'s stale default: `N = −2`, not marked — although nothing changed. -/
+theorem cycle_incremental_asis_fails_F32 :
+    twoEpochs {} pF32b [] [3] [] [2] = .vals [-2] := by decide +kernel
+
+/-- the trigger is the distrust of clean edges: without it `N` is simply verified (`−1`) -/
+theorem cycle_incremental_F32_trigger :
+    twoEpochs beforeF1 pF32b [] [3] [] [2] = .vals [-1] := by decide +kernel
+
+/-- candidate repair (members of a former cycle are never cleaned, F3/F31 repaired) -/
+theorem cycle_incremental_repaired_F32 :
+    twoEpochs { f3 := true, f31 := true, f32 := true } pF32b [] [3] [] [2] = .vals [-1] := by decide +kernel
 
 end Qbice.Engine.C06
